@@ -323,3 +323,19 @@ mod test {
         assert!(u0 % (1u128 << 64) != 0); // vanishingly small false positive prob
     }
 }
+
+#[cfg(feature = "verif-hooks")]
+pub mod verif {
+    pub fn base_sampler(bytes: [u8; 9]) -> i16 {
+        super::base_sampler(bytes)
+    }
+    pub fn approx_exp(x: f64, ccs: f64) -> u64 {
+        super::approx_exp(x, ccs)
+    }
+    pub fn ber_exp(x: f64, ccs: f64, random_bytes: [u8; 7]) -> bool {
+        super::ber_exp(x, ccs, random_bytes)
+    }
+    pub fn sampler_z(mu: f64, sigma: f64, sigma_min: f64, rng: &mut dyn rand::RngCore) -> i16 {
+        super::sampler_z(mu, sigma, sigma_min, rng)
+    }
+}
